@@ -3,6 +3,7 @@ from core import (variant_edges, enum_paths, path_atoms, path_calls, path_return
                   root_calls, subexprs, is_call_to, classify_external, field_path, mentions)
 from ackmodel import AckModel
 
+WITNESSES = ['W4DonePrivate', 'W6ExecutorUnreachable']
 LEVEL = "proof"
 EXPLANATION = ("One FIFO channel, one receiver owned by one spawned closure, blocking sends whose failure is "
                "surfaced, and a worker loop in which every dequeued command runs exactly one handler synchronously "
